@@ -118,6 +118,15 @@ pub fn run(seed: u64, n: usize, out: &mut dyn Write) {
                     for _ in 0..nf {
                         feats.push(render_cell_p(&mut rng, 1, 4).1);
                     }
+                    // a "tall" quoted cell: many short lines inside one field, so that the field is longer than every
+                    // physical line of the file (a CSV row is not a line: buffers must be sized by the field)
+                    if rng.chance(1, 8) {
+                        let n = 6 + rng.below(40);
+                        let brk = if rng.chance(1, 4) { "\r\n" } else { "\n" };
+                        let body: Vec<&str> = (0..n).map(|_| *rng.pick(&["", "a", "b", "ab", "名", "\"\""])).collect();
+                        let at = rng.below(feats.len() + 1);
+                        feats.insert(at, format!("\"{}\"", body.join(brk)));
+                    }
                     if rng.chance(1, 8) {
                         feats.push(String::new()); // feature ending in ','
                     }
